@@ -297,7 +297,7 @@ def run(ctx):
     ctx.pmap(kind_probe, [(ctx.seed, i, i + 50) for i in range(0, 800, 50)])
     from harness import fuzz
 
-    fuzz.campaign(ctx, "C08", ["numpy-debug"], runs=600 if ctx.quick else 30000, workers=8 if ctx.quick else 16)
+    fuzz.campaign(ctx, "C08", ["numpy-debug"], runs=600 if ctx.quick else 15000, workers=8 if ctx.quick else 16)
 
 
 # ---- coverage-guided tier (harness/fuzz.py)
